@@ -23,7 +23,7 @@ func init() {
 func runC11(w *World, r *Report) {
 	r.Rule("C11/NO-UPWARD-FLOW", "propagating globals into a subchart never writes the parent's tree: the parent-side parameter carries no mutation contract and every tree handed to a mutating merge there is a deep copy", 3)
 	r.Rule("C11/GLOBAL-DIRECTION", "globals are propagated from the parent's values into each subchart's section, the parent's setting in the destination (winning) slot of the nested merge", 2)
-	r.Rule("C11/SCOPE", "a non-root chart's .Values is the table Values.<name> of its parent's scope (or empty); children are given the parent's scope object, never the raw values", 3)
+	r.Rule("C11/SCOPE", "a non-root chart's .Values is the table Values.<name> of its parent's scope (or empty); children are given the parent's scope object, never the raw values", 2)
 	r.Rule("C11/DISABLED-VANISH", "disabled dependencies are removed from both the metadata list and the chart list by the same name set, the lists are rebuilt (never filtered in place), only kept charts are recursed into, and after the first boolean condition no further condition path is consulted", 7)
 	r.Rule("C11/ALIAS", "an aliased dependency is a copy with its own metadata; the original chart and metadata are not written", 1)
 
@@ -137,16 +137,35 @@ func c11Scope(w *World, r *Report) {
 		r.Bad("C11/SCOPE", "scope-object", w.Pos(fn.Pos()), "no per-chart scope object with a Values entry is built")
 		return
 	}
-	for i, mu := range valuesStores {
-		v := unwrapIface(mu.Value)
+	var classify func(v ssa.Value, at ssa.Instruction, depth int) (bool, string)
+	classify = func(v ssa.Value, at ssa.Instruction, depth int) (bool, string) {
+		v = unwrapIface(v)
 		ok, why := false, "an unrecognised value "+v.String()
 		switch x := v.(type) {
 		case *ssa.MakeMap:
 			ok, why = true, "an empty table"
+		case *ssa.Phi:
+			// a value chosen before the scope object is filled: every incoming value must be acceptable
+			// where it flows in (judged at the end of its predecessor block)
+			if depth > 3 {
+				break
+			}
+			ok, why = true, "one of: "
+			for i, e := range x.Edges {
+				p := x.Block().Preds[i]
+				if len(p.Instrs) == 0 {
+					continue
+				}
+				o, wy := classify(e, p.Instrs[len(p.Instrs)-1], depth+1)
+				if !o {
+					return false, wy
+				}
+				why += wy + "; "
+			}
 		case *ssa.Lookup:
 			if k, isC := constString(x.Index); isC && k == "Values" && x.X == vals {
 				// only for the root chart: guarded by c.IsRoot()
-				ok, why = guardedByCall(fn, mu, "(*pkg/chart/v2.Chart).IsRoot", true), "vals[\"Values\"] for the root chart"
+				ok, why = guardedByCall(fn, at, "(*pkg/chart/v2.Chart).IsRoot", true), "vals[\"Values\"] for the root chart"
 				if !ok {
 					why = "vals[\"Values\"] without the IsRoot() guard: a subchart would see its parent's whole values"
 				}
@@ -165,13 +184,26 @@ func c11Scope(w *World, r *Report) {
 							}
 						}
 					}
-					ok, why = pathOK, "the table Values.<chart name> of the parent's scope"
+					// the table is used only where Table reported no error (on error it returns the enclosing table)
+					errOK := false
+					if okE := okEdgesOfCall(c); len(okE) > 0 {
+						if ex, _ := FullGraph(fn).PathExists(posOf(c), posOf(at), Avoid{}.withEdges(okE...)); !ex {
+							errOK = true
+						}
+					}
+					ok, why = pathOK && errOK, "the table Values.<chart name> of the parent's scope"
 					if !pathOK {
 						why = "a table of the parent's scope under a path other than Values.<chart name>"
+					} else if !errOK {
+						why = "the result of Values.Table used although it reported an error (then it is the parent's whole table)"
 					}
 				}
 			}
 		}
+		return ok, why
+	}
+	for i, mu := range valuesStores {
+		ok, why := classify(mu.Value, mu, 0)
 		r.Check(ok, "C11/SCOPE", fmt.Sprintf("values-source#%d", i+1), w.InstrPos(mu), ".Values is "+why, ".Values is "+why)
 	}
 	// recursion passes the scope object
